@@ -75,6 +75,8 @@ def h_capture(sx):
                 # (e.g. a module logging at import time): loggers cache that answer until some setLevel() call
                 root.setLevel(logging.ERROR)
                 logging.getLogger("harness").isEnabledFor(logging.WARNING)
+            if p.get("root_level_as_capture"):
+                root.setLevel(logging.INFO)         # the application's level happens to be the capture level
             states["user-level"] = root.level
         if name == "before_scenario":
             sid = w._label(args[0])
@@ -86,6 +88,8 @@ def h_capture(sx):
             order.append(sid)
         if name in ("before_step", "after_step"):
             print("HOOKOUT<%s:%s>" % (name, w._label(args[0])))
+            if name == "before_step" and p.get("step_hook_changes_root_level"):
+                root.setLevel(logging.DEBUG)        # user code turning on verbose logging for one step: undone at scenario end
 
     try:
         w, flags = build_world(sx, {"hooks": True, "fault": bool(p.get("fault")), "prints": True, "hook_probe": probe})
@@ -190,14 +194,17 @@ def h_capture(sx):
         users_ = [h for h in hs_ if not isinstance(h, LoggingCapture)]
         sx.check(users_ == [user_handler, user_handler2], "C18.user-log-handlers-as-before-scenario",
                  detail=lambda m, where_=where_, users_=users_: dict(det(m), at=where_, handlers=["user1" if h is user_handler else "user2" if h is user_handler2 else type(h).__name__ for h in users_]))
-        sx.check(lvl_ == states.get("user-level", lvl_), "C18.root-log-level-as-before-scenario",
-                 detail=lambda m, where_=where_, lvl_=lvl_: dict(det(m), at=where_, level=lvl_, level_set_by_application=states.get("user-level")))
+        if lo or not p.get("step_hook_changes_root_level"):
+            # (with log capture off behave does not touch the root logger: a level changed by user code then simply stays)
+            sx.check(lvl_ == states.get("user-level", lvl_), "C18.root-log-level-as-before-scenario",
+                     detail=lambda m, where_=where_, lvl_=lvl_: dict(det(m), at=where_, level=lvl_, level_set_by_application=states.get("user-level")))
     for sid, ((hs_before, lvl_before), (hs_after, lvl_after)) in enumerate(zip(befores[1:], afters)):
         ub = [h for h in hs_before if not isinstance(h, LoggingCapture)]
         ua = [h for h in hs_after if not isinstance(h, LoggingCapture)]
         sx.check(ua == ub, "C18.user-log-handlers-as-before-scenario", detail=lambda m, sid=sid: dict(det(m), sid=sid))
-        sx.check(lvl_after == lvl_before, "C18.root-log-level-as-before-scenario",
-                 detail=lambda m, sid=sid, a=lvl_after, b=lvl_before: dict(det(m), sid=sid, level_after=a, level_before=b))
+        if lo or not p.get("step_hook_changes_root_level"):
+            sx.check(lvl_after == lvl_before, "C18.root-log-level-as-before-scenario",
+                     detail=lambda m, sid=sid, a=lvl_after, b=lvl_before: dict(det(m), sid=sid, level_after=a, level_before=b))
         sx.check(not any(isinstance(h, LoggingCapture) and h not in hs_before for h in hs_after), "C18.no-stale-capture-handler-after-scenario",
                  detail=lambda m, sid=sid: dict(det(m), sid=sid, handlers=[type(h).__name__ for h in hs_after]))
     return {"capture": [so, se, lo], "steps": w.step_status_table(), "bad": pr.bad}
@@ -245,13 +252,15 @@ def jobs(tier, seed):
     shapes["level-notset"] = ([F([S(2), S(1)])], {"out_dom": {"*": [0, 1]}, "undef": False, "log_markers_at_info": True})
     shapes["stale-level-cache"] = ([F([S(2), S(1)])], {"out_dom": {"*": [0, 1]}, "undef": False})
     shapes["switch-off-midrun"] = ([F([S(1), S(2)])], {"out_dom": {"*": [0, 1]}, "undef": False})
+    shapes["level-changed-in-step"] = ([F([S(2), S(1)])], {"out_dom": {"*": [0, 1]}, "undef": False})
     shapes["nested"] = ([F([S(2), S(1)])], {"out_dom": {"*": [0, 1]}, "nested_steps": ["f0.i0.0", "f0.i1.0"], "undef": False})
     for name, (sh, opts) in shapes.items():
         for clear in ((False, True) if (tier != "quick" or name == "2sc") else (False,)):
             js.append(Job("capture.%s.c%d" % (name, clear), "props.c18:h_capture",
                           {"shapes": sh, "opts": opts, "fault": name == "hookfault", "clear_handlers": clear,
                            "log_filter": "other,-harness.fill" if name == "filter" else None, "stale_level_cache": name == "stale-level-cache", "capture_level_notset": name == "level-notset",
-                           "switch_off_before_second": name == "switch-off-midrun"},
+                           "switch_off_before_second": name == "switch-off-midrun",
+                           "root_level_as_capture": name == "level-changed-in-step", "step_hook_changes_root_level": name == "level-changed-in-step"},
                           reach=[REACH[0], REACH[3]] if name == "switch-off-midrun" else REACH if name != "hookfault" else REACH[:3],
                           min_paths=4 if name == "switch-off-midrun" else 20, cost=100, validate=60))
     js.append(Job("captured-kernel", "props.c18:h_captured_kernel", {}, reach=["C18.captured-add-loses-nothing"], min_paths=100, cost=50,
